@@ -41,7 +41,7 @@ fn spawn_worker() -> (mpsc::Sender<Vec<Job>>, mpsc::Receiver<Vec<Done>>) {
             let mut res = Vec::with_capacity(js.len());
             for j in js {
                 if cache.as_ref().map(|c| c.0) != Some(j.entry) { cache = (reg[j.entry].make)().map(|o| (j.entry, o)); }
-                let Some((_, obj)) = cache.as_ref() else { res.push(Done { out: Err("ConstructorFailed".into()), words: 0, us: 0 }); continue; };
+                let Some((_, obj)) = cache.as_ref() else { res.push(Done { out: Err(if reg[j.entry].variant.contains("optional") { "Skipped" } else { "ConstructorFailed" }.into()), words: 0, us: 0 }); continue; };
                 let mut rng = if j.mode == 0 { ScriptRng::adversarial(j.seed, j.at, j.word) } else { ScriptRng::new(j.prefix.clone(), j.seed) };
                 let t0 = Instant::now();
                 let r = guarded(|| obj.sample(&mut rng));
@@ -151,6 +151,7 @@ pub fn drive(args: &[String]) -> i32 {
         base["sem"] = json!(sem);
         // adversarial schedules
         let mut entry_timeouts = 0u64;
+        let mut entry_max_us = 0u64;                 // slowest single call seen for this entry (drives how many more calls are spent on it)
         for s in 0..nseeds {
             for pos in 0..positions {
                 if entry_timeouts >= 3 { continue; }       // a hanging entry has been established: do not spend 2 s per further call
@@ -158,7 +159,7 @@ pub fn drive(args: &[String]) -> i32 {
                 let dones = run_batch(jobs, limit_ms, &mut jtx, &mut drx);
                 for (&w, d) in lat.iter().zip(dones.into_iter()) {
                     if d.out.as_ref().err().map(|p| p == "Skipped").unwrap_or(false) { continue; }
-                    ncalls += 1;
+                    ncalls += 1; entry_max_us = entry_max_us.max(d.us);
                     let mut ev = base.clone();
                     ev["op"] = json!("call"); ev["pos"] = json!(pos); ev["word"] = json!(format!("{:#018x}", w)); ev["wc"] = json!(word_class(w));
                     ev["words"] = json!(d.words.min(2_000_000_000)); ev["us"] = json!(d.us.min(2_000_000_000)); ev["seed"] = json!(s);
@@ -182,7 +183,9 @@ pub fn drive(args: &[String]) -> i32 {
         }
         // the adversarial word right after a stratified random word: a branch that is selected by the previous draw with
         // probability >= 3% (a region of a multi-region proposal) is reached with the extreme words whatever the seed
-        if entry_timeouts < 3 && e.variant != "beyond-E" {
+        // an entry whose single calls already take tens of milliseconds is not driven 10^5 more times (the slow calls are judged)
+        let slow = entry_max_us > 20_000;
+        if entry_timeouts < 3 && e.variant != "beyond-E" && !slow {
             let mut srnd = crate::rng::Sm(seed ^ 0x57a7 ^ (ei as u64) << 20);
             for pos in 1..positions.min(6) {
             if entry_timeouts >= 1 { break; }          // one established hang per entry is enough (each costs seconds and a spinning thread)
@@ -224,7 +227,7 @@ pub fn drive(args: &[String]) -> i32 {
         let mut bkind = "f64"; let mut first_bad: Option<String> = None;
         // integer-valued samplers are cheap and their rare branches need many draws: ten times the block
         let discrete = ["Binomial", "Hypergeometric", "Poisson", "Geometric", "Zipf", "Zeta", "StandardGeometric"].contains(&e.family) && e.variant != "beyond-E";
-        let block_calls = if entry_timeouts >= 3 { 3 } else if discrete { block_calls * 10 } else { block_calls };
+        let block_calls = if entry_timeouts >= 3 { 3 } else if slow { 40 } else if discrete { block_calls * 10 } else { block_calls };
         // in chunks, so that an entry whose consumption has exploded (already a budget violation) does not stall the run
         let mut done_calls = 0u64; let t_block = Instant::now();
         let mut all: Vec<Done> = vec![];
